@@ -107,6 +107,20 @@ class Ctx:
         self.add_pc(f)
         self.axioms.append(name)
 
+    def define(self, name, term):
+        """a constant naming `term` (definitional equality in the path condition); memoised per term"""
+        term = z3.simplify(term)
+        if z3.is_int_value(term) or z3.is_rational_value(term) or z3.is_const(term):
+            return term
+        key = ("def", term.get_id())
+        hit = self.ghost.get(key)
+        if hit is not None:
+            return hit[0]
+        v = z3.Const(fresh(name), term.sort())
+        self.ghost[key] = (v, term)
+        self.add_pc(v == term)
+        return v
+
     def _check(self, f):
         self.solver.push()
         self.solver.add(f)
@@ -1132,6 +1146,8 @@ def explore(run, max_paths=4096, time_budget=None):
             raise PathLimit(f"path exploration exceeded {time_budget}s")
         prefix = work.pop()
         ctx = Ctx(prefix)
+        from . import values as _values
+        _values._CUR[0] = ctx
         try:
             v = run(ctx)
             res = PathResult(ctx, "ok", v)
